@@ -2,6 +2,7 @@ import LyModel.XmlTree.Model
 import LyModel.XmlTree.Spec
 import LyModel.XmlTree.Opaq
 import LyModel.XmlTree.OpaqCheck
+import LyModel.XmlTree.DataCheck
 /-! driver ops of component `xmltree`: `print <rows-hex>` — rows as printed by harness `api_rt` (`view`);
     `opaqprint <view-hex>` — the opaque-node view of harness op `opaqview`, printed by the v2 model with `Fixes.current`. -/
 namespace LyModel.XmlTree.Drv
@@ -144,6 +145,126 @@ def opaqForest (b : Bytes) : Except String (List ONode) :=
         let (forest, rest) := buildO (2 * rs.length + 2) 0 rs
         if rest.isEmpty then .ok forest else .error "BadRows"
 
+/-! ### the view of a data tree under print options (`xvw_r` in `harness/api_rt.c`) -/
+
+/-- `<k> (<prefix> <ns>){k}` and nothing after it -/
+def parseMods : (k : Nat) → List String → Option ValMods
+  | 0, [] => some []
+  | 0, _ :: _ => none
+  | k + 1, p :: u :: r => do
+    let pp ← Hex.dec p
+    let uu ← Hex.dec u
+    let t ← parseMods k r
+    pure ((pp, uu) :: t)
+  | _ + 1, _ => none
+
+inductive URow where
+  | t (depth : Nat) (ns name : Bytes) (wd : Option (Bytes × Bytes)) (value : Bytes) (mods : ValMods) (metas : List DMeta)
+  | i (depth : Nat) (ns name : Bytes) (metas : List DMeta)
+  | o (r : ORow)
+
+def URow.depth : URow → Nat
+  | .t d .. => d
+  | .i d .. => d
+  | .o r => r.depth
+
+inductive ULine where
+  | row (r : URow)
+  | dmeta (m : DMeta)
+  | attr (a : OAttr)
+
+/-- `none` = malformed, `some none` = outside the model's fragment -/
+def parseULine (line : String) : Option (Option ULine) :=
+  match (line.splitOn " ").filter (· ≠ "") with
+  | "T" :: d :: ns :: name :: wdns :: wdp :: v :: k :: rest => do
+    let depth ← d.toNat?
+    let nsb ← Hex.dec ns
+    let nm ← Hex.dec name
+    let wn ← decOpt wdns
+    let wp ← decOpt wdp
+    let vb ← Hex.dec v
+    let kk ← k.toNat?
+    let mods ← parseMods kk rest
+    let wd := match wn, wp with | some u, some p => some (u, p) | _, _ => none
+    pure (some (.row (.t depth nsb nm wd vb mods [])))
+  | ["I", d, ns, name] => do
+    let depth ← d.toNat?
+    let nsb ← Hex.dec ns
+    let nm ← Hex.dec name
+    pure (some (.row (.i depth nsb nm [])))
+  | "M" :: ns :: pfx :: name :: v :: k :: rest => do
+    let nsb ← Hex.dec ns
+    let p ← Hex.dec pfx
+    let nm ← Hex.dec name
+    let vb ← Hex.dec v
+    let kk ← k.toNat?
+    let mods ← parseMods kk rest
+    pure (some (.dmeta { ns := nsb, pfx := p, name := nm, value := vb, valMods := mods }))
+  | "X" :: _ => some none
+  | _ =>
+    match parseOLine line with
+    | none => none
+    | some none => some none
+    | some (some (.inl r)) => some (some (.row (.o r)))
+    | some (some (.inr a)) => some (some (.attr a))
+
+/-- attach `M` / `A` lines to the preceding row -/
+def groupU (l : List ULine) : Option (List URow) :=
+  let step (acc : Option (List URow)) (x : ULine) : Option (List URow) :=
+    match acc, x with
+    | none, _ => none
+    | some rs, .row r => some (r :: rs)
+    | some (.t d ns nm wd v mods ms :: rs), .dmeta m => some (.t d ns nm wd v mods (ms ++ [m]) :: rs)
+    | some (.i d ns nm ms :: rs), .dmeta m => some (.i d ns nm (ms ++ [m]) :: rs)
+    | some (.o r :: rs), .attr a => some (.o { r with attrs := r.attrs ++ [a] } :: rs)
+    | _, _ => none
+  (l.foldl step (some [])).map List.reverse
+
+/-- the opaque rows below an opaque row -/
+def buildOU : (fuel : Nat) → (d : Nat) → List URow → List ONode × List URow
+  | 0, _, rs => ([], rs)
+  | _, _, [] => ([], [])
+  | fuel + 1, d, .o r :: rs =>
+    if r.depth != d then ([], .o r :: rs)
+    else
+      let (kids, rest) := buildOU fuel (d + 1) rs
+      let (sibs, rest') := buildOU fuel d rest
+      (ONode.mk r.name r.pfx r.ns r.value r.valPfx r.attrs kids :: sibs, rest')
+  | _ + 1, _, rs => ([], rs)
+
+def buildD : (fuel : Nat) → (d : Nat) → List URow → List DNode × List URow
+  | 0, _, rs => ([], rs)
+  | _, _, [] => ([], [])
+  | fuel + 1, d, r :: rs =>
+    if r.depth != d then ([], r :: rs)
+    else
+      match r with
+      | .t _ ns nm wd v mods ms =>
+        let (sibs, rest) := buildD fuel d rs
+        (DNode.term ns nm wd ms v mods :: sibs, rest)
+      | .i _ ns nm ms =>
+        let (kids, rest) := buildD fuel (d + 1) rs
+        let (sibs, rest') := buildD fuel d rest
+        (DNode.inner ns nm ms kids :: sibs, rest')
+      | .o o =>
+        let (kids, rest) := buildOU fuel (d + 1) rs
+        let (sibs, rest') := buildD fuel d rest
+        (DNode.opaq (ONode.mk o.name o.pfx o.ns o.value o.valPfx o.attrs kids) :: sibs, rest')
+
+def dataForest (b : Bytes) : Except String (List DNode) :=
+  let lines := ((String.fromUTF8? (ByteArray.mk b.toArray)).getD "").splitOn "\n" |>.filter (· ≠ "")
+  match lines.mapM parseULine with
+  | none => .error "BadRows"
+  | some parsed =>
+    match parsed.mapM id with
+    | none => .error "Unsupported"
+    | some ls =>
+      match groupU ls with
+      | none => .error "BadRows"
+      | some rs =>
+        let (forest, rest) := buildD (2 * rs.length + 2) 0 rs
+        if rest.isEmpty then .ok forest else .error "BadRows"
+
 def handle (op : String) (args : List String) : String :=
   match op, args with
   | "print", [h] =>
@@ -180,6 +301,29 @@ def handle (op : String) (args : List String) : String :=
         "ok " ++ (if opaqOk forest then "1" else "0") ++ " " ++ (if why.isEmpty then "-" else ",".intercalate why) ++ " " ++
           (if same then "1" else "0") ++ " " ++ read ++ " " ++ (if opaqOkAnyNs forest then "1" else "0") ++ " " ++
           (if Fixes.current.undeclare then "1" else "0")
+    | _, _ => "err BadHex"
+  | "dprint", [h] =>
+    match Hex.dec h with
+    | none => "err BadHex"
+    | some b =>
+      match dataForest b with
+      | .error e => "err " ++ e
+      | .ok forest => "ok " ++ Hex.enc (printDData Fixes.current forest)
+  | "dcheck", [h, hp] =>
+    -- the hypothesis of `xml_document_faithful_meta` evaluated on the view (variant of the source); the model's output against
+    -- libyang's bytes; the independent reader applied to LIBYANG's bytes against what the theorem says it reports (`dviewList`)
+    match Hex.dec h, Hex.dec hp with
+    | some b, some px =>
+      match dataForest b with
+      | .error e => "err " ++ e
+      | .ok forest =>
+        let why := (dlistWhy Fixes.current [] forest).eraseDups
+        let same := printDData Fixes.current forest == px
+        let read := match XmlDoc.parseDoc px with
+          | none => "x"
+          | some es => if dumpElems 0 es == dumpElems 0 (dviewList forest) then "1" else "0"
+        "ok " ++ (if dataOk Fixes.current forest then "1" else "0") ++ " " ++ (if why.isEmpty then "-" else ",".intercalate why) ++ " " ++
+          (if same then "1" else "0") ++ " " ++ read
     | _, _ => "err BadHex"
   | "specparse", [h] =>
     match Hex.dec h with
